@@ -248,6 +248,11 @@ bool onlySpuriousLeft() {
 bool g_stopPending[kMaxThreads * 2 + 2];
 
 // `# mon`: what the pool's monitor looks like at the moment its mutex is released
+#ifdef VERIF_ANON_SYNC
+// fallback build (the members the harness names no longer exist under these names): no snapshots, the scheduler names
+// the mutexes / condition variables m0,m1,../c0,c1,.. in order of first use; the oracle then judges by operation only
+void printMon() {}
+#else
 void printMon() {
   const void* ce = &g_pool->notEmpty_.pcond_;
   const void* cf = &g_pool->notFull_.pcond_;
@@ -261,6 +266,7 @@ void printMon() {
   printf("# mon q=%d run=%d neW=%d neS=%d nfW=%d nfS=%d\n", static_cast<int>(g_pool->queue_.size()), g_pool->running_ ? 1 : 0,
          static_cast<int>(ds::cndOf(ce).waiters.size()), neS, static_cast<int>(ds::cndOf(cf).waiters.size()), nfS);
 }
+#endif
 
 void observer(const ds::Ev& e) {
   if (g_case->kind == K_POOL && e.thread >= 0 && e.thread < static_cast<int>(sizeof g_stopPending / sizeof *g_stopPending)) {
@@ -271,9 +277,11 @@ void observer(const ds::Ev& e) {
       g_stopPending[e.thread] = false;
       printf("# stopflag T%d\n", e.thread);
     }
+#ifndef VERIF_ANON_SYNC
     if (e.thread > 0 && ((e.kind == ds::EV_UNLOCK && e.obj == g_pool->mutex_.getPthreadMutex()) ||
                          (e.kind == ds::EV_WAIT && (e.obj == &g_pool->notEmpty_.pcond_ || e.obj == &g_pool->notFull_.pcond_))))
       printMon();
+#endif
   }
   if ((e.kind == ds::EV_WAIT || e.kind == ds::EV_EXIT) && ds::cfg().spurious && onlySpuriousLeft()) ds::reportBlocked();
 }
@@ -288,25 +296,33 @@ void runChild(const CaseDef& c, const std::vector<int>& sched) {
   switch (c.kind) {
     case K_BQ:
       g_bq = new muduo::BlockingQueue<int>();
+#ifndef VERIF_ANON_SYNC
       ds::name(g_bq->mutex_.getPthreadMutex(), "m");
       ds::name(&g_bq->notEmpty_.pcond_, "notEmpty");
+#endif
       break;
     case K_BBQ:
       g_bbq = new muduo::BoundedBlockingQueue<int>(c.a);
+#ifndef VERIF_ANON_SYNC
       ds::name(g_bbq->mutex_.getPthreadMutex(), "m");
       ds::name(&g_bbq->notEmpty_.pcond_, "notEmpty");
       ds::name(&g_bbq->notFull_.pcond_, "notFull");
+#endif
       break;
     case K_LATCH:
       g_latch = new muduo::CountDownLatch(c.a);
+#ifndef VERIF_ANON_SYNC
       ds::name(g_latch->mutex_.getPthreadMutex(), "m");
       ds::name(&g_latch->condition_.pcond_, "cond");
+#endif
       break;
     case K_POOL:
       g_pool = new muduo::ThreadPool("pool");
+#ifndef VERIF_ANON_SYNC
       ds::name(g_pool->mutex_.getPthreadMutex(), "m");
       ds::name(&g_pool->notEmpty_.pcond_, "notEmpty");
       ds::name(&g_pool->notFull_.pcond_, "notFull");
+#endif
       g_pool->setMaxQueueSize(c.b);
       if (pipe(g_gate) != 0) { printf("<<pipe failed>>\n"); fflush(stdout); _exit(0); }
       g_pool->start(c.a);
